@@ -1293,8 +1293,10 @@ func (s *sharedEntryAttributes) populateChoiceCaseResolvers(ctx context.Context)
 	// if choice/cases exist, process it
 	for _, choiceResolver := range s.choicesResolvers {
 		for _, elem := range choiceResolver.GetElementNames() {
-			isNew := false
 			var val2 *int32
+			// the highes precedence the branch had before the transaction, this is what the index reflects
+			oldValue := s.treeContext.GetTreeSchemaCacheClient().GetBranchesHighesPrecedence(ctx, append(s.Path(), elem))
+
 			// Query the Index, stored in the treeContext for the per branch highes precedence.
 			// The content of all the intents of the transaction is taken from the tree, not from the index.
 			v := s.treeContext.GetTreeSchemaCacheClient().GetBranchesHighesPrecedence(ctx, append(s.Path(), elem), CacheUpdateFilterExcludeOwners(s.treeContext.GetInvolvedOwners()))
@@ -1308,9 +1310,8 @@ func (s *sharedEntryAttributes) populateChoiceCaseResolvers(ctx context.Context)
 
 			if val2 != nil && v >= *val2 {
 				v = *val2
-				isNew = true
 			}
-			choiceResolver.SetValue(elem, v, isNew)
+			choiceResolver.SetValue(elem, v, oldValue)
 		}
 	}
 }
